@@ -42,6 +42,11 @@ def make_tree(ns):
         fns[nm] = (P, O)
     nodes["mid"].children = [nodes["leaf1"]]
     nodes["top"].children = [nodes["mid"], nodes["leaf2"]]
+    nodes["top"]._parent = None
+    nodes["mid"]._parent = nodes["leaf2"]._parent = nodes["top"]
+    nodes["leaf1"]._parent = nodes["mid"]
+    for nd in nodes.values():
+        nd.parent = nd._parent
     return nodes, fns
 
 
@@ -52,21 +57,32 @@ def node_goal(node, exp_len, expP, expO):
                   z3.Implies(z3.And(0 <= k, k < exp_len), z3.And(pe.elem(k) == expP, q.elem(k) == expO)))
 
 
+SUBTREE = {"top": NAMES, "mid": ("mid", "leaf1")}
+
+
+def _untouched_goal(nodes, fns, names):
+    out = []
+    for nm in names:
+        P, O = fns[nm]
+        out.append((f"untouched.{nm}", node_goal(nodes[nm], N, P(k), O(k))))
+    return out
+
+
 def scen_move(rep):
     fails = []
-    for scalar, auto in itertools.product((True, False), (True, False)):
+    for scalar, auto, root in itertools.product((True, False), (True, False), ("top", "mid")):
         ns = PathNS()
 
         def body():
             nodes, fns = make_tree(ns)
             disp = Arr(None, lambda i: d0, "vec") if scalar else Arr(n, lambda i: D(i), "vec")
-            nodes["top"].move(disp, start="auto" if auto else SymInt(start))
+            nodes[root].move(disp, start="auto" if auto else SymInt(start))
             return nodes, fns
 
         def post(ctx, res):
             nodes, fns = res
-            out = []
-            for nm in NAMES:
+            out = _untouched_goal(nodes, fns, [x for x in NAMES if x not in SUBTREE[root]])
+            for nm in SUBTREE[root]:
                 P, O = fns[nm]
                 obj = nodes[nm]
                 q = obj._orientation.q
@@ -75,21 +91,21 @@ def scen_move(rep):
                                            scalar, n, None if auto else start, (lambda i: d0) if scalar else (lambda i: D(i)))))
             return out
 
-        fails += discharge_paths(rep, f"collection.move[scalar={scalar},auto={auto}]",
+        fails += discharge_paths(rep, f"collection({root}).move[scalar={scalar},auto={auto}]",
                                  "magpylib._src.obj_classes.class_BaseTransform:BaseTransform.move", body, post, [N >= 1, n >= 1])
     return fails
 
 
 def scen_rotate(rep, only=None):
     fails = []
-    for rk, ak, auto in itertools.product("sv", ("none", "zero", "s", "v"), (True, False)):
+    for rk, ak, auto, root in itertools.product("sv", ("none", "zero", "s", "v"), (True, False), ("top", "mid")):
         if only and (rk, ak) != only:
             continue
         ns = PathNS()
 
         def body():
             nodes, fns = make_tree(ns)
-            nodes["top"].rotate(_mk_rot(rk), anchor=_mk_anchor(ak), start="auto" if auto else SymInt(start))
+            nodes[root].rotate(_mk_rot(rk), anchor=_mk_anchor(ak), start="auto" if auto else SymInt(start))
             return nodes, fns
 
         def post(ctx, res):
@@ -102,13 +118,13 @@ def scen_rotate(rep, only=None):
                 scalar = False
                 nn = rl if al is None else (al if rl is None else z3.If(rl > al, rl, al))
             rot_at = (lambda i: rho) if rk == "s" else (lambda i: RHO(clamp(i, n)))
-            Ptop = fns["top"][0]
-            out = []
-            for nm in NAMES:
+            Ptop = fns[root][0]
+            out = _untouched_goal(nodes, fns, [x for x in NAMES if x not in SUBTREE[root]])
+            for nm in SUBTREE[root]:
                 P, O = fns[nm]
                 obj = nodes[nm]
                 if ak == "none":
-                    anc_at = None if nm == "top" else (lambda i, j: Ptop(clamp(j, N)))
+                    anc_at = None if nm == root else (lambda i, j: Ptop(clamp(j, N)))
                 elif ak == "zero":
                     anc_at = lambda i, j: VZERO
                 elif ak == "s":
@@ -121,7 +137,7 @@ def scen_rotate(rep, only=None):
                                              scalar, nn, None if auto else start, rot_at, anc_at)))
             return out
 
-        fails += discharge_paths(rep, f"collection.rotate[rot={rk},anchor={ak},auto={auto}]",
+        fails += discharge_paths(rep, f"collection({root}).rotate[rot={rk},anchor={ak},auto={auto}]",
                                  "magpylib._src.obj_classes.class_BaseTransform:BaseTransform._rotate", body, post,
                                  [N >= 1, n >= 1, na >= 1])
     return fails
@@ -327,20 +343,24 @@ def native_rel(seed, opname, params):
     top = magpy.Collection(mid, l2)
     top._position = rng.normal(size=(Nn, 3)); top._orientation = R.from_rotvec(rng.normal(size=(Nn, 3)))
 
+    tgt_name = params.get("target", "top")
+    ref = top if tgt_name == "top" else mid
+    members = (mid, l1, l2) if tgt_name == "top" else (l1,)
+
     def rel():
         out = []
-        for c in (mid, l1, l2):
-            out.append((top._orientation.inv().apply(c._position - top._position), (top._orientation.inv() * c._orientation).as_quat()))
+        for c in members:
+            out.append((ref._orientation.inv().apply(c._position - ref._position), (ref._orientation.inv() * c._orientation).as_quat()))
         return out
 
     before = rel()
     try:
-        return _native_rel_body(rng, R, np, top, mid, l1, l2, rel, before, opname, params, Nn)
+        return _native_rel_body(rng, R, np, ref, mid, l1, l2, rel, before, opname, params, Nn, members)
     except Exception as e:  # pylint: disable=broad-except
         return f"raised {type(e).__name__}: {e}"
 
 
-def _native_rel_body(rng, R, np, top, mid, l1, l2, rel, before, opname, params, Nn):
+def _native_rel_body(rng, R, np, top, mid, l1, l2, rel, before, opname, params, Nn, members):
     pos0 = top._position.copy()
     st = params.get("start", "auto")
     nn_ = params.get("n", 1)
@@ -356,7 +376,7 @@ def _native_rel_body(rng, R, np, top, mid, l1, l2, rel, before, opname, params, 
         top.orientation = R.from_rotvec(rng.normal(size=(nn_, 3))) if params.get("vector") else (None if params.get("none") else R.from_rotvec(rng.normal(size=3)))
     # index map old -> new
     M = len(top._position)
-    if any(len(c._position) != M or len(c._orientation) != M for c in (mid, l1, l2)):
+    if any(len(c._position) != M or len(c._orientation) != M for c in members):
         return "path lengths of tree members differ after the operation"
     after = rel()
     if opname in ("move", "rotate"):
@@ -368,7 +388,7 @@ def _native_rel_body(rng, R, np, top, mid, l1, l2, rel, before, opname, params, 
         jmap = [min(kk, Nn - 1) for kk in range(M)] if M >= Nn else [kk + Nn - M for kk in range(M)]
     if len(jmap) != M:
         return f"collection path length {M}, spec {len(jmap)}"
-    for (bp, bq), (ap, aq), nm in zip(before, after, ("mid", "leaf1", "leaf2")):
+    for (bp, bq), (ap, aq), nm in zip(before, after, ("mid", "leaf1", "leaf2") if len(members) == 3 else ("leaf1",)):
         if not np.allclose(ap, bp[jmap], atol=1e-9):
             return f"relative position of {nm} changed"
         if not PS.same_rot(aq, bq[jmap]):
@@ -398,6 +418,8 @@ def native_cases(tier):
                     for anc in ("none", "zero", "s", "v"):
                         for nan_ in ((1, 2, 3) if anc == "v" else (1,)):
                             yield "rotate", dict(N=Nn, vector=vector, n=nn_, start=st, anchor=anc, na=nan_)
+                        if Nn <= 2 and nn_ <= 2:
+                            yield "rotate", dict(N=Nn, vector=vector, n=nn_, start=st, anchor=anc, na=1, target="mid")
                 yield "setpos", dict(N=Nn, vector=vector, n=nn_)
                 yield "setori", dict(N=Nn, vector=vector, n=nn_)
         yield "setori", dict(N=Nn, none=True)
